@@ -152,8 +152,7 @@ def run(tier):
     chk = vlib.Check(PID, tier, 'model_checking')
     vlib.build('plain')
     files = zoo.standard_files()
-    if tier == 'thorough':
-        files.update(zoo.large_files())
+    files.update(zoo.large_files())          # links > CHUNKSIZE: quick explores them to depth 1 and sweeps with a stride
     exe, listfile, models = seekgraph.load_models(files)
     t_end = time.time() + (240 if tier == 'quick' else 1500)
     stats = {'rejections': 0, 'sigs': set()}
@@ -164,9 +163,11 @@ def run(tier):
     nsweep = 0
     for i, fm in enumerate(models):
         budget = time.time() + max(5.0, (t_end - time.time()) / (len(models) - i))
-        ex = Explorer(exe, listfile, fm, sigma(tier == 'thorough'), make_judge(chk, stats), deadline=budget, probe='none' if tier == 'quick' else 'plin').explore()
+        big = fm.size > 65536 * 2
+        ex = Explorer(exe, listfile, fm, sigma(tier == 'thorough'), make_judge(chk, stats), deadline=budget, probe='none' if tier == 'quick' else 'plin',
+                      depth_cap=(1 if (big and tier == 'quick') else 99)).explore()
         merr += ex.machinery_errors[:3]
-        n, ns = sweep(chk, exe, listfile, fm, stats, stride=1 if (tier == 'thorough' or fm.L <= 6000) else 3, rich=(tier == 'thorough'))
+        n, ns = sweep(chk, exe, listfile, fm, stats, stride=(997 if tier == 'quick' else 41) if big else (1 if (tier == 'thorough' or fm.L <= 6000) else 3), rich=(tier == 'thorough' and not big))
         nsweep += n
         per_file[fm.name] = {'states': len(ex.states), 'transitions': ex.trans, 'fixpoint': ex.fixpoint, 'cut': ex.cut, 'max_depth': ex.max_depth,
                              'alphabet': len(sigma(tier == 'thorough')(fm, None)), 'sweep_cases': n, 'seed_states': ns, 'L': fm.L}
